@@ -809,3 +809,126 @@ func family(f *ssa.Function) []*ssa.Function {
 	}
 	return out
 }
+
+
+// paramOfType returns the n-th (0-based) non-receiver parameter whose type is the named type
+// pkg.name ("gen.PID"), or whose type string equals name for unnamed types ("error").
+func paramOfType(f *ssa.Function, name string, n int) *ssa.Parameter {
+	ps := f.Params
+	if f.Signature.Recv() != nil && len(ps) > 0 {
+		ps = ps[1:]
+	}
+	for _, pa := range ps {
+		t := pa.Type()
+		match := false
+		if p, ok := t.(*types.Pointer); ok {
+			t = p.Elem()
+		}
+		if nt, ok := t.(*types.Named); ok && nt.Obj().Pkg() != nil {
+			match = strings.TrimPrefix(nt.Obj().Pkg().Path(), load.Module+"/")+"."+nt.Obj().Name() == name
+		} else {
+			match = t.String() == name
+		}
+		if match {
+			if n == 0 {
+				return pa
+			}
+			n--
+		}
+	}
+	return nil
+}
+
+// lastParamOfKinds returns the last non-receiver parameter whose named type is one of names.
+func lastParamOfKinds(f *ssa.Function, names ...string) *ssa.Parameter {
+	var out *ssa.Parameter
+	ps := f.Params
+	if f.Signature.Recv() != nil && len(ps) > 0 {
+		ps = ps[1:]
+	}
+	for _, pa := range ps {
+		nt, ok := pa.Type().(*types.Named)
+		if !ok || nt.Obj().Pkg() == nil {
+			continue
+		}
+		full := strings.TrimPrefix(nt.Obj().Pkg().Path(), load.Module+"/") + "." + nt.Obj().Name()
+		for _, n := range names {
+			if full == n {
+				out = pa
+			}
+		}
+	}
+	return out
+}
+
+// leqEdges returns the edges of the branch on comparison b on which "E <= k" is implied, where E
+// is the operand accepted by isE and the other operand is an integer constant. nonNeg: E is known
+// to be >= 0 (a length), which lets `E != 0`'s false edge and `E == 0` work for k = 0.
+func leqEdges(b *ssa.BinOp, isE func(ssa.Value) bool, k int64) []Edge {
+	var e ssa.Value
+	var c int64
+	op := b.Op
+	if cv, ok := constInt(b.Y); ok && isE(b.X) {
+		e, c = b.X, cv
+	} else if cv, ok := constInt(b.X); ok && isE(b.Y) {
+		e, c = b.Y, cv
+		// mirror the operator: c OP E  ==  E OP' c
+		switch op {
+		case token.LSS:
+			op = token.GTR
+		case token.LEQ:
+			op = token.GEQ
+		case token.GTR:
+			op = token.LSS
+		case token.GEQ:
+			op = token.LEQ
+		}
+	}
+	if e == nil {
+		return nil
+	}
+	t, f, _ := boolEdges(b)
+	switch op {
+	case token.EQL:
+		if c <= k {
+			return t
+		}
+	case token.NEQ:
+		if c <= k && c == 0 { // E != 0 false => E == 0
+			return f
+		}
+	case token.LSS: // E < c  => E <= c-1
+		if c-1 <= k {
+			return t
+		}
+	case token.LEQ:
+		if c <= k {
+			return t
+		}
+	case token.GTR: // !(E > c) => E <= c
+		if c <= k {
+			return f
+		}
+	case token.GEQ: // !(E >= c) => E <= c-1
+		if c-1 <= k {
+			return f
+		}
+	}
+	return nil
+}
+
+// isLenCallOf: v is len(x) (builtin) or x.Len() where pred(x) holds.
+func isLenCallOf(v ssa.Value, pred func(ssa.Value) bool) bool {
+	c, ok := v.(*ssa.Call)
+	if !ok {
+		return false
+	}
+	cc := c.Common()
+	if b, ok := cc.Value.(*ssa.Builtin); ok && b.Name() == "len" {
+		return pred(cc.Args[0])
+	}
+	if callsNamed(c, "Len") && len(cc.Args) > 0 {
+		return pred(cc.Args[0])
+	}
+	return false
+}
